@@ -10,6 +10,8 @@ package main
 // generated output ("err" if it does not load); "-" for the other templates.
 
 import (
+	"time"
+	"os"
 	"bytes"
 	"encoding/hex"
 	"fmt"
@@ -246,7 +248,41 @@ func c06SearchScript(c addchain.Chain) (string, bool) {
 	return s, true
 }
 
+// c06OutFileProbe drives `addchain gen [-type T] -out <file> <script>` through the built binary: a
+// long script's output is written to a file, then a short script's output to the SAME file; the file
+// must then hold exactly what `gen` prints for the short script (no stale tail of the earlier output).
+func c06OutFileProbe(g *Gen) {
+	dir, err := os.MkdirTemp("", "c06out")
+	if err != nil {
+		return
+	}
+	defer os.RemoveAll(dir)
+	long := "a = 2*1\nb = a + 1\nc = b << 3\nd = c + b\ne = d << 4 + a\nf = e + d + c\nreturn f << 3 + e\n"
+	short := "a = 2*1\nreturn a + 1\n"
+	lp, sp, out := dir+"/long.acc", dir+"/short.acc", dir+"/out.txt"
+	if os.WriteFile(lp, []byte(long), 0o644) != nil || os.WriteFile(sp, []byte(short), 0o644) != nil {
+		return
+	}
+	for _, typ := range []string{"listing", "chain", "ops", "script"} {
+		os.Remove(out)
+		r1 := runCLI([]string{"gen", "-type", typ, "-out", out, lp}, nil, 30*time.Second)
+		r2 := runCLI([]string{"gen", "-type", typ, "-out", out, sp}, nil, 30*time.Second)
+		want := runCLI([]string{"gen", "-type", typ, sp}, nil, 30*time.Second)
+		got, rerr := os.ReadFile(out)
+		g.Count("gen-out-file")
+		if r1.exit != 0 || r2.exit != 0 || want.exit != 0 || rerr != nil {
+			g.Notes = append(g.Notes, fmt.Sprintf("VIOLATION: gen -type %s -out: exit status %d / %d / %d, read error %v; stderr %q", typ, r1.exit, r2.exit, want.exit, rerr, string(r2.stderr)))
+			return
+		}
+		if !bytes.Equal(got, want.stdout) {
+			g.Notes = append(g.Notes, fmt.Sprintf("VIOLATION: gen -type %s -out <file> over an existing longer file leaves %q, gen prints %q", typ, string(got), string(want.stdout)))
+			return
+		}
+	}
+}
+
 func genC06(g *Gen) {
+	c06OutFileProbe(g)
 	// fixed cases: the documented shapes and the known delicate ones
 	for _, text := range []string{
 		"return 1",
@@ -263,6 +299,13 @@ func genC06(g *Gen) {
 		"a = 1 + 1\nb = a + 1\nreturn a",
 		"a = 1 + 1\nb = a + 1\nreturn [1] + [2]",
 		"_10 = 2*1\n_11 = 1 + _10\n_1100 = _11 << 2\nreturn (_1100 + _11) << 3 + 1",
+		// the same operation written twice (each occurrence is its own chain element)
+		"a = 2*1\nb = 2*1\nc = a + b\nreturn c + [2]",
+		"a = 2*1\nb = a + 1\nreturn 2*1",
+		"a = 1 + 1\nb = 1 + 1\nreturn a + b",
+		"a = 1 << 2\nb = 1 << 2\nreturn a + b + [1]",
+		"a = 1 + 1\nb = a + 1\nc = a + 1\nreturn b + c + [3]",
+		"return (1 + 1) + (1 + 1)",
 	} {
 		c06Case(g, text)
 		g.Count("fixed")
